@@ -78,12 +78,40 @@ class Run:
             return False
         return True
 
+    def autolink(self):
+        """a callee without body (a helper the working tree added to a file this run does not compile): find its definition among
+        snoopy's own sources and link that file in - mechanical, reported in the evidence; never a violation by itself"""
+        names = set()
+        for r in self.results:
+            m = re.search(r"no body for callee (\w+)", r.get("description", ""))
+            if m and r.get("status") == "FAILURE": names.add(m.group(1))
+        added = []
+        have = set(self.s.get("sources", []))
+        for n in sorted(names):
+            if not n.startswith("snoopy_"): continue
+            pat = re.compile(r"^[A-Za-z_][\w \t\*]*\b%s\s*\(" % re.escape(n), re.M)
+            for f in sorted(glob.glob(os.path.join(REPO, "src", "*.c")) + glob.glob(os.path.join(REPO, "src", "*", "*.c"))):
+                rel = os.path.relpath(f, REPO)
+                if rel in have or "/cli/" in rel or "/entrypoint/" in rel: continue
+                txt = open(f, errors="replace").read()
+                if pat.search(txt) and re.search(r"\b%s\s*\([^;{]*\)\s*\{" % re.escape(n), txt, re.S):
+                    added.append(rel); have.add(rel); break
+        return added
+
     def execute(self, keep=False):
         t0 = time.time()
         tmp = tempfile.mkdtemp(prefix="verif_%s_" % self.id.replace("/", "_"))
         self.drift = False
         try:
             self._execute(tmp)
+            if not self.error and not self.s.get("scan"):
+                extra = self.autolink()
+                if extra:
+                    self.s = dict(self.s); self.s["sources"] = list(self.s.get("sources", [])) + extra
+                    self.notes.append("auto-linked the definition of body-less callee(s): " + ", ".join(extra))
+                    shutil.rmtree(tmp, ignore_errors=True); os.makedirs(tmp, exist_ok=True)
+                    self.results = []; self.error = None
+                    self._execute(tmp)
         except Exception as e:  # infrastructure failure
             self.error = "exception: %r" % (e,)
         finally:
@@ -340,7 +368,7 @@ def main():
     for run in runs:
         rep = {"id": run.id, "kind": run.kind, "bound": run.s.get("bound"), "functions_under_contract": run.s.get("functions", []),
                "back_end": "cbmc 6.11 SAT (%s)" % ("cadical" if run.s.get("dfcc") is not None else "minisat"),
-               "solver_s": round(run.solver_s, 2), "wall_s": round(run.wall_s, 2), "what": run.s.get("what", "")}
+               "solver_s": round(run.solver_s, 2), "wall_s": round(run.wall_s, 2), "what": run.s.get("what", ""), "notes": run.notes}
         functions.update(run.s.get("functions", []))
         if run.error:
             if run.drift:
@@ -364,13 +392,18 @@ def main():
         missing = [m for m in run.s.get("must_fire", []) if not any(re.search(m, r["description"]) or re.search(m, r["property"]) for r in obl)]
         if re.search(r"ignoring (forall|exists)", run.log): tool_errors.append((run, "quantifier ignored by back end"))
         unwind_fail = [r for r in obl if r["status"] == "FAILURE" and ("unwinding assertion" in r["description"] or ".unwind." in r["property"])]
-        fails = [r for r in obl if r["status"] == "FAILURE" and r not in unwind_fail]
+        nobody = [r for r in obl if r["status"] == "FAILURE" and ".no-body." in r["property"]]
+        fails = [r for r in obl if r["status"] == "FAILURE" and r not in unwind_fail and r not in nobody]
         aux = [r for r in fails if AUX_RE.search(r["description"]) or AUX_RE.search(r["property"])]
         hard = [r for r in fails if r not in aux]
         rep["obligations"] = len(obl); rep["discharged"] = len([r for r in obl if r["status"] == "SUCCESS"])
         if missing:
             rep["status"] = "undecided: must-fire obligations absent (drift): %s" % missing
             print("NOTE run=%s drift: must-fire obligation(s) absent: %s" % (run.id, missing))
+            run_reports.append(rep); continue
+        if nobody and not hard:
+            rep["status"] = "undecided: callee(s) without body or contract (drift): %s" % sorted(set(r["property"].split(".no-body.")[-1] for r in nobody))
+            print("NOTE run=%s drift: callee without body or contract: %s" % (run.id, rep["status"][-120:]))
             run_reports.append(rep); continue
         if unwind_fail and not hard:
             # (a counterexample found inside the bound is real whatever the bound; only a clean run needs complete unwinding)
